@@ -274,8 +274,8 @@ type Runner struct {
 	Out      *bufio.Writer
 	Log      io.Writer
 	Verdicts io.Writer // optional: one line per case with the code's verdict (informational: completeness is not claimed)
-	Sum  Summary
-	seen map[string]bool
+	Sum      Summary
+	seen     map[string]bool
 }
 
 func NewRunner(out *bufio.Writer) *Runner {
